@@ -51,7 +51,7 @@ verus! {
 //%slice parser.rs entry_tail fn parse_mapping ;; if let Some(ModSym::Not) = misc { ;; block +2 ;; fn entry_tail(misc: Option<ModSym>, expression: Expression, expressions: &mut Vec<Expression>) ;; -
 //%slice parser.rs mapping_tail fn parse_mapping ;; afterblock:for (k, v) in mapping { ;; Ok(Expression::BooleanGroup(BoolSym::And, expressions)) ;; fn mapping_tail(expressions: Vec<Expression>) -> crate::Result<Expression> ;; -
 
-//%slice parser.rs bool_value fn parse_mapping ;; if let Some(ModSym::Int) = misc { ;; Box::new(Expression::Boolean(*b)), +2 ;; fn bool_value(misc: Option<ModSym>, e: Expression, f: String, b: &bool) -> Expression ;; let r0 = @; r0
+//%slice parser.rs bool_value fn parse_mapping ;; inside:Yaml::Bool(b) => { ;; - ;; fn bool_value(misc: Option<ModSym>, e: Expression, f: String, b: &bool) -> Expression ;; let r0 = @; r0
 //%slice parser.rs number_value fn parse_mapping ;; if let Some(i) = n.as_i64() { ;; "number must be a signed integer or float, encountered - {:?}", +3 ;; fn number_value(misc: Option<ModSym>, e: Expression, f: String, n: &serde_yaml::Number, k: &String) -> crate::Result<Expression> ;; Ok(@)
 
 //%slice parser.rs list_flags fn parse_mapping ;; let mut boolean = false; ;; let mut string = false; ;; fn list_flags(misc: Option<ModSym>) -> (bool, bool, bool, bool, bool) ;; (boolean, cast, mapping, number, string)
